@@ -79,6 +79,46 @@ fn draw<T: Tab>(n: usize) -> Value {
     }
 }
 
+/// Spec -> impl: build the pre-state, perform the call, compare with what the specification expects
+fn replay_one<T: Tab + Send>(sc: &Value, problems: &mut Vec<String>) {
+    let mut st: State<T> = State::new();
+    for s in 0..2usize {
+        let t = &sc["pre"][s];
+        st.exec(&json!({"op": "load", "d": s, "n": t["n"], "on": t["on"]}));
+    }
+    let ev = st.exec(&sc["call"]);
+    let exp_out = sc["out"].as_str().unwrap_or("ok");
+    let got_out = ev["out"].as_str().unwrap_or("?");
+    if exp_out != got_out {
+        problems.push(format!("{}: outcome {} (specification: {})", T::TY, got_out, exp_out));
+        return;
+    }
+    for s in 0..2usize {
+        let exp = &sc["post"][s];
+        match st.slots[s].as_ref() {
+            None => problems.push(format!("{}: slot {} empty", T::TY, s)),
+            Some(t) => {
+                let e = exec::enc(t);
+                let n = e["n"].as_u64().unwrap() as usize;
+                let wf = e["nb"].as_u64().unwrap() as usize == (if n <= 6 { 1 } else { 1usize << (n - 6) })
+                    && e.get("valpanic").is_none()
+                    && e["on"].as_array().unwrap().iter().all(|x| (x.as_u64().unwrap() as usize) < (1usize << n));
+                let meaning = if e.get("val").is_some() { e["val"].clone() } else { e["on"].clone() };
+                if e["n"] != exp["n"] || !wf || meaning != exp["on"] {
+                    problems.push(format!("{}: slot {} = {} (specification: {})", T::TY, s, e, exp));
+                }
+            }
+        }
+    }
+    let exp_r = &sc["r"];
+    if exp_r != "-" {
+        let got = ev.get("r").cloned().unwrap_or(Value::Null);
+        if &got != exp_r {
+            problems.push(format!("{}: observable {} (specification: {})", T::TY, got, exp_r));
+        }
+    }
+}
+
 fn main() {
     let args: Vec<String> = std::env::args().collect();
     if args.len() < 2 {
@@ -190,6 +230,46 @@ fn main() {
             }
             w.flush().unwrap();
             println!("{}", json!({"chunks": chunk + 1, "events": nev, "episodes": nep, "panics": npanic}));
+        }
+        "replay" => {
+            // vdrive replay <scripts.ndjson> <mismatches.ndjson> [--ops op1,op2,...]
+            exec::silence_panics();
+            let mut ops_filter: Option<Vec<String>> = None;
+            if args.len() >= 6 && args[4] == "--ops" {
+                ops_filter = Some(args[5].split(',').map(|x| x.to_string()).collect());
+            }
+            let rd = BufReader::new(std::fs::File::open(&args[2]).expect("open scripts"));
+            let mut w = BufWriter::new(std::fs::File::create(&args[3]).expect("create mismatches"));
+            let mut n_scripts = 0usize;
+            let mut n_mismatch = 0usize;
+            let mut by_op: std::collections::BTreeMap<String, usize> = Default::default();
+            for line in rd.lines() {
+                let line = line.unwrap();
+                if line.trim().is_empty() {
+                    continue;
+                }
+                let sc: Value = serde_json::from_str(&line).expect("HARNESS: script json");
+                let opname = sc["call"]["op"].as_str().unwrap().to_string();
+                if let Some(f) = &ops_filter {
+                    if !f.contains(&opname) {
+                        continue;
+                    }
+                }
+                n_scripts += 1;
+                *by_op.entry(opname).or_insert(0) += 1;
+                let n = sc["pre"][0]["n"].as_u64().unwrap() as usize;
+                let mut problems: Vec<String> = Vec::new();
+                replay_one::<Lut>(&sc, &mut problems);
+                if n <= 12 {
+                    with_static!(n, L, replay_one::<L>(&sc, &mut problems));
+                }
+                if !problems.is_empty() {
+                    n_mismatch += 1;
+                    writeln!(w, "{}", json!({"script": sc, "problems": problems})).unwrap();
+                }
+            }
+            w.flush().unwrap();
+            println!("{}", json!({"scripts": n_scripts, "mismatches": n_mismatch, "by_op": by_op}));
         }
         _ => {
             eprintln!("unknown command");
